@@ -4,7 +4,8 @@
    Reading guide.  [run (init_state replica info auto) evs] executes an arbitrary event sequence (registered
    data-node sets, HTTP answers of data nodes, clock advances, doCheckNamespaces rounds, bare
    handleNamespaceMigrate / addNamespaceToNode / removeNamespaceFromNode / removeNamespaceFromRemovings calls,
-   register failures, balance rounds, node decommissioning) from a layout [info]; its second component is the list
+   register failures, balance rounds, node decommissioning, and the learner placement driver's check rounds and
+   bare add / remove / remove-all / leader calls) from a layout [info]; its second component is the list
    of ALL register update attempts, each with the value stored before it ([a_before]), the value passed
    ([a_value]) and whether the compare-and-swap succeeded ([a_ok]).  The placement function's proposals are
    universally quantified event parameters, so every theorem holds whatever the placement answers. *)
@@ -16,14 +17,11 @@ Theorem C18_inv_clauses : forall replica i, Inv replica i ->
   len (removings i) <= 1 /\                                   (* at most one replica marked for removal *)
   replica / 2 < len (isr i) /\                                (* remaining replicas: strict majority of the replication factor *)
   NoDup (raft_nodes i) /\                                     (* all on distinct nodes *)
-  NoDup (map snd (raft_ids i)) /\                             (* raft ids injective *)
-  (forall n id, In (n, id) (raft_ids i) -> id <= max_id i) /\ (* every id <= MaxRaftID *)
-  (forall n, In n (map fst (raft_ids i)) <-> In n (raft_nodes i)) /\
-  (forall n, In n (map fst (removings i)) -> In n (raft_nodes i)).
+  NoDup (map snd (raft_ids i)) /\                             (* raft ids (voters and learners) injective *)
+  (forall n id, In (n, id) (raft_ids i) -> id <= max_id i).   (* every id <= MaxRaftID *)
 Proof.
   intros replica i [Hw [Hl Hq]]. repeat split; try assumption;
-    try apply (wf_nodes_nodup _ Hw); try apply (wf_ids_inj _ Hw); try apply (wf_ids_max _ Hw);
-    try apply (wf_ids_keys _ Hw); apply (wf_rm_sub _ Hw).
+    try apply (wf_nodes_nodup _ Hw); try apply (wf_ids_inj _ Hw); apply (wf_ids_max _ Hw).
 Qed.
 Print Assumptions C18_inv_clauses.
 
@@ -132,13 +130,14 @@ Print Assumptions C18_created_layout_valid.
 (* ---------- non-vacuity ---------- *)
 (* a valid 3-replica layout on nodes 1,2,3; all five nodes registered and answering; node 3 is lost; after the
    wait interval the check marks it removing; the data nodes drop it; after the removing wait the check takes it
-   out of RaftNodes and, in the same round, adds node 4 with the fresh id 4; register content at the end *)
-Definition ex_info : rinfo := mkInfo [1;2;3] [(1,1);(2,2);(3,3)] [] 3 0.
+   out of RaftNodes and, in the same round, adds node 4 with the fresh id 4; then the learner driver is started,
+   learner node 101 registers and gets the next id; register content at the end *)
+Definition ex_info : rinfo := mkInfo [1;2;3] [(1,1);(2,2);(3,3)] [] 3 [] 0.
 Definition ex_members (l : list (N * N)) : option (option (list (N * N)) * bool) := Some (Some l, true).
 Definition ex_events : list event :=
-  [ ENodes [1;2;3;4;5];
+  [ ENodes [1;2;3;4;5] [];
     EAnswer [(1, ex_members [(1,1);(2,2);(3,3)]); (2, ex_members [(1,1);(2,2);(3,3)]); (3, ex_members [(1,1);(2,2);(3,3)])];
-    ENodes [1;2;4;5];
+    ENodes [1;2;4;5] [];
     ECheck true (PList [1;2;4]) (PList [1;2;4]);
     ETick 18;
     ECheck true (PList [1;2;4]) (PList [1;2;4]);
@@ -146,18 +145,19 @@ Definition ex_events : list event :=
     ETick 6;
     ECheck true (PList [1;2;4]) (PList [1;2;4]);
     ETick 18;
-    ECheck true (PList [1;2;4]) (PList [1;2;4]) ].
+    ECheck true (PList [1;2;4]) (PList [1;2;4]);
+    ELStart true;
+    ENodes [1;2;4;5] [(101, true)];
+    ELCheck ].
 
 Example C18_ex_valid : Inv 3 ex_info.
 Proof.
   split; [constructor; simpl|split; [vm_compute; discriminate|vm_compute; reflexivity]].
   - repeat constructor; simpl; intuition discriminate.
   - repeat constructor; simpl; intuition discriminate.
-  - intros n; tauto.
   - repeat constructor; simpl; intuition discriminate.
   - intros n id [H|[H|[H|[]]]]; inversion H; subst; vm_compute; discriminate.
   - constructor.
-  - intros n [].
 Qed.
 
 Example C18_ex_run :
@@ -165,6 +165,8 @@ Example C18_ex_run :
   map (fun a => (raft_nodes (a_value a), map fst (removings (a_value a)), max_id (a_value a), a_ok a)) (snd res) =
     [ ([1;2;3], [3], 3, true);        (* node 3 marked removing *)
       ([1;2], [], 3, true);           (* removal finished *)
-      ([1;2;4], [], 4, true) ]        (* replacement added with the fresh id 4 *)
-  /\ raft_ids (r_info (s_reg (fst res))) = [(1,1);(2,2);(4,4)].
-Proof. vm_compute. split; reflexivity. Qed.
+      ([1;2;4], [], 4, true);         (* replacement added with the fresh id 4 *)
+      ([1;2;4], [], 5, true) ]        (* the learner driver adds learner 101 with the fresh id 5 *)
+  /\ raft_ids (r_info (s_reg (fst res))) = [(1,1);(2,2);(4,4);(101,5)]
+  /\ learners (r_info (s_reg (fst res))) = [101].
+Proof. vm_compute. repeat split; reflexivity. Qed.
